@@ -43,6 +43,8 @@ def plan(tier, seed):
         for n in range(0, b["gen"] + 1):
             items.append({"fam": "cer", "m": m, "n": n})
     items.append({"fam": "efc"})
+    for ind in range(6):
+        items.append({"fam": "product", "indicator": ind})
     for cer in range(6):
         for p in range(4):
             items.append({"fam": "results", "cer": cer, "part": p, "parts": 4})
@@ -216,6 +218,30 @@ def run_item(item):
                 x = I.EvaluatedFormatConstraint(format_constraint_fulfilled=ful, error_message=msg)
                 acc(roundtrip("efc", x, {"what": "evaluated-format-constraint", "fulfilled": ful, "message": msg}), 1, msg is not None,
                     {"efc": [ful, msg]})
+    elif fam == "product":
+        # the small field-value product of the three result classes (user-supplied evaluators decide texts: '' is possible)
+        from ahbicht.models.enums import ModalMark, PrefixOperator
+        from ahbicht.models.evaluation_results import (
+            AhbExpressionEvaluationResult,
+            FormatConstraintEvaluationResult,
+            RequirementConstraintEvaluationResult,
+        )
+
+        ind = [ModalMark.MUSS, ModalMark.SOLL, ModalMark.KANN, PrefixOperator.X, PrefixOperator.O, PrefixOperator.U][item["indicator"]]
+        fcrs = [FormatConstraintEvaluationResult(format_constraints_fulfilled=f, error_message=m)
+                for f in (True, False) for m in (None, "", "msg")]
+        for ful, cond, fcx, hints in itertools.product((True, False, None), (True, False, None), (None, "", "[901] U [902]"),
+                                                       (None, "", "Hinweis [501]")):
+            rcr = RequirementConstraintEvaluationResult(requirement_constraints_fulfilled=ful, requirement_is_conditional=cond,
+                                                        format_constraints_expression=fcx, hints=hints)
+            case = {"what": "result-product", "indicator": item["indicator"], "fields": [ful, cond, fcx, hints]}
+            vs = roundtrip("rcr", rcr, case) if item["indicator"] == 0 else []
+            for k, fcr in enumerate(fcrs):
+                if item["indicator"] == 0 and (ful, cond, fcx, hints) == (True, True, None, None):
+                    vs += roundtrip("fcr", fcr, dict(case, fcr=k))
+                vs += roundtrip("ahb", AhbExpressionEvaluationResult(requirement_indicator=ind, requirement_constraint_evaluation_result=rcr,
+                                                                     format_constraint_evaluation_result=fcr), dict(case, fcr=k))
+            acc(vs, len(fcrs) + 1, ful is None or "" in (fcx, hints), {"result_product": [str(ind), ful, cond, fcx, hints]})
     elif fam == "results":
         cer = item["cer"]
         singles = [[(ind, "", cond, "")] for ind in ("Muss", "s", "X", "u") for cond in c09.MENU]
@@ -254,6 +280,9 @@ def replay(case):
         vs, _ = check_tree_expr(inner)
     elif what in ("generated-cer", "generated-cer+packages+id", "generated-cer+no-packages", "extract"):
         vs = run_item({"fam": "cer", "m": case["m"], "n": case["n"]}).violations
+    elif what == "result-product":
+        vs = run_item({"fam": "product", "indicator": case["indicator"]}).violations
+        vs = [v for v in vs if v["case"].get("fields") == case["fields"] and v["case"].get("fcr") == case.get("fcr")]
     elif what == "evaluated-format-constraint":
         vs = run_item({"fam": "efc"}).violations
     elif what == "evaluation-result" and "cer" in case:
